@@ -22,7 +22,7 @@ def main():
     importlib.import_module(pkg + ".b")
     out = {}
     for mod, name in first:
-        fn = getattr(sys.modules[pkg + "." + mod], name)
+        fn = getattr(sys.modules[{"a": pkg + ".a", "b": pkg + ".b", "i": pkg, "e": pkg + "_ext.lib"}[mod]], name)
         try:
             if mode == "versions":
                 out[name] = fn.version()
